@@ -188,7 +188,7 @@ def _check_one(smoke_dir, target, feats, extra_env=None):
 
 
 def run_matrix(res, tier, repo):
-    work = os.path.join(F.WORK, "c20")
+    work = os.path.join(F.WORK, "c20" + F.repo_suffix(repo))
     os.makedirs(work, exist_ok=True)
     cfgs = configs(tier)
     nshards = 8
